@@ -435,6 +435,11 @@ def rules(ctx):
     r5_shared_defaults(ctx, rid="C01.R9", scope="leaspy.variables", title="the dependency closures a State invalidates with are computed from its own graph (no process-wide memo in leaspy.variables)")
     # a block run with snapshotting switched off must switch it back on however it is left: otherwise later assignments take no snapshot and
     # a revert restores an older one - derived values of the rejected assignment are then served (same rule as C02.R7)
+    # what a per-individual revert writes back is either the old or the current value of each entry - never an arithmetic mix (a NaN from
+    # inf * 0 would then be served from the cache): same rule as C02.R4; and a clone that keeps the snapshot keeps the *snapshot* (C02.R8)
+    from .c02 import r4_selection, r8_clone_keeps_the_snapshot
+    r4_selection(ctx, rid="C01.R11")
+    r8_clone_keeps_the_snapshot(ctx, rid="C01.R12")
     from .c02 import r7_auto_fork_scoped
     r7_auto_fork_scoped(ctx, rid="C01.R10", title="State.auto_fork sets the requested mode for the block and restores the previous one in a `finally`")
     ctx.trust("CPython ast; Python dict semantics; torch out-of-place semantics of methods whose name does not end in '_'")
